@@ -230,3 +230,6 @@ def run(ctx):
     _gf.representations(ctx)  # (tools/wiring.py) right-hand sides are read as projections / coefficients, solutions returned as coefficient vectors
     _c10.compat(ctx)
     _c10.compat_use(ctx)
+    from .. import sparse as _sp15
+
+    _sp15.mass_matrices(ctx)  # (tools/wiring.py) strong-form solves multiply by the inverse mass matrix of (range, dual) pairs
